@@ -42,10 +42,11 @@ FIELDS = {
         "pattern_map": ("dict", "str", "str"),
         "delimiter": "str",
     },
+    "MappingServiceGraph": {"converter": "Converter"},
 }
 REFTUPLE = ("tuple", ("str", "str"), "ReferenceTuple")
 TUPLE_FIELDS = {"ReferenceTuple": ["prefix", "identifier"], "DuplicateSummary": ["record_1", "record_2", "prefix"]}
-REF_SORT = {"Record": "Rec", "Converter": "Conv"}
+REF_SORT = {"Record": "Rec", "Converter": "Conv", "MappingServiceGraph": "Msg"}
 
 
 def parse_ty(s):
@@ -58,7 +59,7 @@ def parse_ty(s):
             if len(rest) == 1:
                 return ("opt", parse_ty(rest[0]))
         raise Unsupported(f"union type {s}")
-    if s in ("str", "bool", "int", "Record", "Converter"):
+    if s in ("str", "bool", "int", "Record", "Converter", "MappingServiceGraph"):
         return s
     if s == "None":
         return "none"
@@ -1440,7 +1441,7 @@ class Engine:
                 # every object allocated at function entry still has its entry field values
                 return VBool(And(*[cond for _, cond in self.frame_condition([], self.fn_pre, st)]))
             if name == "len" and len(node.args) == 1:
-                v = self.ev(node.args[0], env, st)
+                v = self.unopt(self.ev(node.args[0], env, st))
                 if isinstance(v, VStr):
                     return VInt(app("slen", v.t, sort="Int"))
                 if isinstance(v, VList):
@@ -1482,6 +1483,15 @@ class Engine:
                 if isinstance(v, VDict):
                     return VSet(lambda x, v=v: v.has(x), v.kty)
                 raise Unsupported("set() of " + type(v).__name__)
+            if name in ("URIRef", "str") and len(node.args) == 1:
+                v = self.ev(node.args[0], env, st)
+                if isinstance(v, VStr):
+                    return v          # rdflib.URIRef is a str subclass; str(x) of a str is x
+                raise Unsupported(name + "() of " + type(v).__name__)
+            if name == "_is_valid_uri" and len(node.args) == 1:
+                v = self.ev(node.args[0], env, st)
+                self.ctx.trusted.add("rdflib.term._is_valid_uri is a (side-effect free) predicate on strings")
+                return VBool(app("valid_uri", v.t, sort="Bool"))
             if name == "bool" and len(node.args) == 1:
                 return VBool(truthy(c, self.ev(node.args[0], env, st)))
             if name == "cast" and len(node.args) == 2:
@@ -1662,6 +1672,10 @@ class Engine:
 
     def call_helper(self, name, node, env, st):
         fn = self.helpers[name]
+        if name == "_is_valid_uri" and len(node.args) == 1:
+            v = self.ev(node.args[0], env, st)
+            self.ctx.trusted.add("rdflib.term._is_valid_uri is a (side-effect free) predicate on strings")
+            return VBool(app("valid_uri", v.t, sort="Bool"))
         if name == "first_occ":
             a, b = [self.ev(x, env, st) for x in node.args]
             return VBool(app("first_occ", a.t, b.t, sort="Bool"))
